@@ -1,6 +1,7 @@
 package props
 
 import (
+	"fmt"
 	"strings"
 
 	lucene "github.com/grindlemire/go-lucene"
@@ -108,7 +109,7 @@ func (p *seqPlan) each(ctx *core.Ctx, batch int, fn func(kind, in string)) {
 		// long inputs: every scaling family at a few moderate sizes, and random deep trees with
 		// hostile leaves
 		which := batch - (p.nSeq + p.nTree + p.nFuzz + p.nFrag + p.nHost)
-		sizes := []int{100, 520, 1100}
+		sizes := gen.Sizes([]int{100, 520, 1100}, 16, 3000)
 		for i, fam := range gen.Families {
 			if i%p.nLong != which {
 				continue
@@ -125,6 +126,12 @@ func (p *seqPlan) each(ctx *core.Ctx, batch int, fn func(kind, in string)) {
 			t := qt.RandomTree(r, leaves, 1+r.Intn(5))
 			if t.Size() <= 40 {
 				fn("hostile-tree", qt.Print(t, qt.Style{}))
+			}
+		}
+		// related parts: same-field pairs, values equal to field names, all-equal lists, …
+		for i, t := range qt.RelationTrees() {
+			if i%p.nLong == which {
+				fn("relation-tree", qt.Print(t, qt.Style{}))
 			}
 		}
 	case batch >= p.nSeq+p.nTree+p.nFuzz+p.nFrag:
@@ -166,7 +173,7 @@ func (p *seqPlan) each(ctx *core.Ctx, batch int, fn func(kind, in string)) {
 	}
 }
 
-func (c10) Batches(tier string, seed int64) int { return newSeqPlan(tier, 16, 400).total() }
+func (c10) Batches(tier string, seed int64) int { return newSeqPlan(tier, 16, 400).total() + 1 }
 
 func errClass(err error) string {
 	w := strings.Fields(err.Error())
@@ -180,6 +187,41 @@ func (c10) RunBatch(ctx *core.Ctx, batch int) {
 	mon.Install()
 	defer monFlush(ctx)
 	plan := newSeqPlan(ctx.Tier, 16, 400)
+	if batch == plan.total() {
+		// value lists of 2 … 100000 members (sizes around powers of two and around every integer
+		// constant of the code under test): the result tuples must stay all-or-nothing whatever
+		// the number of values and parameters
+		for _, n := range gen.Sizes([]int{2, 3, 4, 15, 16, 17, 255, 256, 257, 1000, 4096, 32767, 32768, 32769, 65535, 65536, 65537, 100000}, 2, 100000) {
+			var b strings.Builder
+			b.WriteString("a:(v0")
+			for i := 1; i < n; i++ {
+				fmt.Fprintf(&b, " OR v%d", i)
+			}
+			b.WriteString(")")
+			one := b.String()
+			half := n / 2
+			var c strings.Builder
+			c.WriteString("NOT a:(1")
+			for i := 1; i < half; i++ {
+				fmt.Fprintf(&c, " OR %d", i+1)
+			}
+			c.WriteString(") AND b:(x")
+			for i := 1; i < n-half; i++ {
+				c.WriteString(" OR \"y z\"")
+			}
+			c.WriteString(")")
+			two := c.String()
+			for _, df := range []string{"", "df"} {
+				ctx.Case(fmt.Sprintf("value list of %d members", n), func() { c10Check(ctx, "big-list", one, df) })
+				if n-half >= 2 && half >= 2 {
+					ctx.Case(fmt.Sprintf("two value lists of %d members together", n), func() { c10Check(ctx, "big-list", two, df) })
+				}
+			}
+			ctx.Count("big_lists", 1)
+			ctx.Max("largest_value_list", float64(n))
+		}
+		return
+	}
 	plan.each(ctx, batch, func(kind, in string) {
 		for _, df := range []string{"", "df"} {
 			ctx.Case(in, func() { c10Check(ctx, kind, in, df) })
